@@ -124,3 +124,18 @@ void hp_get_constant_reg(void) {
   __CPROVER_assert(r == expected, "postcondition: the constant register is the spec function of the compiler state (no hidden static state)");
   REACH();
 }
+
+/* ================================================================ C16: orc_compiler_compile_program owns the compiler object
+ * it is handed (orc_program_compile_full allocates it and returns the callee's result): on the path taken when the program
+ * already carries an error it must release it too.  assume/assert form; --memory-leak-check is the postcondition. */
+const char *orc_program_get_error (OrcProgram *program) { return program->error_msg; }
+char g_errtxt[4];
+void hp_compile_program_with_error(void) {
+  OrcCompiler *c = malloc(sizeof(*c)); OrcProgram *p = malloc(sizeof(*p)); __CPROVER_assume(c != NULL && p != NULL);
+  g_errtxt[0] = 'e'; g_errtxt[1] = nondet_char(); g_errtxt[3] = 0;
+  p->error_msg = g_errtxt; p->name = g_errtxt;
+  OrcCompileResult r = orc_compiler_compile_program(c, p, NULL, nondet_uint());
+  __CPROVER_assert(r == ORC_COMPILE_RESULT_UNKNOWN_PARSE, "postcondition: a program that carries an error is not compiled");
+  free(p);
+  REACH();
+}
